@@ -105,6 +105,39 @@ def r2(ctx):
                 fa = facts_at(x)
                 same = evn.may_hold(fa, {"%s is %s" % (recv, a): True, "%s is not %s" % (recv, a): False})
                 ctx.check("NSE.%s:relay-not-arrival" % hname, not same, where(m, x), "the relayed message is also sent back on the arrival adapter")
+    # a router never answers Who-Is-Router for a network it reaches through the asking network itself
+    h = nse.methods["WhoIsRouterToNetwork"]
+    a = h.args.args[1].arg
+
+    def not_arrival(node):
+        for at_, pol in atoms_of_facts(facts_at(node)):
+            if isinstance(at_, ast.Compare) and len(at_.ops) == 1 and isinstance(at_.ops[0], (ast.Is, ast.IsNot)):
+                sides = [norm(at_.left), norm(at_.comparators[0])]
+                if a in sides and (isinstance(at_.ops[0], ast.Is) != pol):
+                    return True
+        return False
+    k = 0
+    for x in calls_in(h):
+        if norm(x.func) == "self.response" and x.args and norm(x.args[0]) == a:
+            k += 1
+            ok = not_arrival(x)
+            if not ok:
+                # the answer lists networks collected in a loop: every collected network must be guarded instead
+                ctor = None
+                blk = getattr(enclosing_stmt(x), "_parent", None)
+                for fld in ("body", "orelse"):
+                    lst = getattr(blk, fld, None)
+                    if isinstance(lst, list) and enclosing_stmt(x) in lst:
+                        for st in lst[:lst.index(enclosing_stmt(x))]:
+                            if isinstance(st, ast.Assign) and len(x.args) > 1 and norm(st.targets[0]) == norm(x.args[1]) and isinstance(st.value, ast.Call):
+                                ctor = st.value
+                payload = norm(ctor.args[0]) if ctor is not None and ctor.args and isinstance(ctor.args[0], ast.Name) else None
+                apps = [y for y in calls_in(h) if isinstance(y.func, ast.Attribute) and y.func.attr == "append" and norm(y.func.value) == payload]
+                ok = payload is not None and bool(apps) and all(not_arrival(y) for y in apps)
+            ctx.check("NSE.WhoIsRouterToNetwork:answer#%d:not-through-asking-network" % k, ok, where(m, x),
+                      "I-Am-Router-To-Network is answered although the network may be reached through the adapter the question came from: the asker then sends its traffic to this router, which sends it straight back")
+    if k < 3:
+        raise ShapeError("WhoIsRouterToNetwork: only %d answers found" % k)
 
 
 @rule("C06.R3", "a forwarded packet names the originator: existing SADR kept, otherwise (arrival network, link-layer source)", floor=2, engines="E1")
@@ -334,3 +367,10 @@ def r6(ctx):
             snd = [x for x in calls_in(inner[0]) if norm(x.func) == "%s.process_npdu" % a and norm(x.args[0]) == pv]
             ok = len(dst) == 1 and norm(dst[0].value) == "%s.pduSource" % n_ and len(snd) == 1
     ctx.check("NSE.IAmRouterToNetwork:releases-parked", ok, where(m, h), "for each announced network with parked packets: forget the parking entry and send every parked packet to the announcing router on the arrival adapter")
+
+
+@rule("C06.R7", "what a router forwards by is coherent: the path index and the router map of the routing cache move together (a learned destination is reachable, a displaced one is gone)", floor=10, engines="E1 (shared with C19.R2 / C19.R3)")
+def r7(ctx):
+    from . import c19
+    c19.r2(ctx)
+    c19.r3(ctx)
